@@ -132,4 +132,51 @@ theorem gen_patterns_ok :
      Gen.C02.findBigWordReFlags, Gen.C02.findCurrentBigWordReFlags,
      Gen.C02.findCurrentBigWordWsReFlags] = [32, 32, 32, 32, 32, 32] := by decide
 
+
+/-! ### who writes the shared line-table cache
+
+  `cache_transparent` models the cache as filled only by the two lazy getters.  That premise is
+  pinned: the set of functions of document.py that assign `_cache.lines` / `_cache.line_indexes`
+  (found by `ast` on every run) must be exactly these two.  A method that seeds the cache of a
+  document it produces (e.g. a paste handing over its own line list) breaks this obligation; the
+  cache sessions of the harness (documents produced by paste / insert / cut interleaved with plain
+  constructions) then exhibit the failing input. -/
+theorem gen_cache_writers_ok :
+    Gen.C02.cacheWriters = ["Document._line_start_indexes", "Document.lines"] := by decide
+
+
+/-- a document-producing method that hands a line list `ls` to the (still empty) cache entry of the
+    text `t` it produced (what a "don't split again" optimisation would do) -/
+def seedLines (s : Store) (t : Text) (ls : List Text) : Store :=
+  if (s.get t).lines.isNone then s.set t { s.get t with lines := some ls } else s
+
+/-- **cache transparency over sessions with produced documents**: seeding keeps the store
+    consistent — and therefore every later interleaving of queries transparent
+    (`cache_transparent`) — provided the seeded list is `text.split("\n")` -/
+theorem seedLines_ok (s : Store) (hs : s.Ok) (t : Text) (ls : List Text) (h : ls = lines t) :
+    (seedLines s t ls).Ok ∧
+    ∀ ops, (cacheRun (seedLines s t ls) ops).1 = ops.map pureAns := by
+  have hok : (seedLines s t ls).Ok := by
+    unfold seedLines
+    split
+    · apply s.set_ok hs
+      have hc := s.get_ok hs t
+      refine ⟨?_, hc.2⟩
+      intro ls' hls'
+      simp only [Option.some.injEq] at hls'
+      rw [← hls', h]
+    · exact hs
+  exact ⟨hok, fun ops => (cache_transparent _ hok ops).1⟩
+
+/-- … and the proviso is needed: a list that merely joins back to the text (one element with an
+    embedded newline, as `[data.text] * count` of a multi-line LINES paste) makes a later plain
+    `lines` query on an equal text answer wrongly -/
+theorem seedLines_wrong_breaks :
+    ∃ (t : Text) (ls : List Text), join ['\n'] ls = t ∧ ls ≠ lines t ∧
+      (cacheRun (seedLines [] t ls) [.lines t, .indexToPos t 2]).1 ≠
+        [pureAns (.lines t), pureAns (.indexToPos t 2)] :=
+  ⟨['a', '\n', 'b'], [['a', '\n', 'b']], by decide, by decide, by decide⟩
+example : (seedLines [] ['a', '\n', 'b'] [['a'], ['b']]).Ok :=
+  (seedLines_ok [] (by intro p hp; cases hp) _ _ (by decide)).1
+
 end Ptk.C02
